@@ -269,3 +269,329 @@ Proof.
   destruct (Z.leb_spec (- 2 ^ 63) (Z.quot d (Z.of_nat tc))); destruct (Z.ltb_spec (Z.quot d (Z.of_nat tc)) (2 ^ 63));
     cbn [andb]; try reflexivity; lia.
 Qed.
+
+(* ================================================================================ *)
+(* ALL i64 operands: the share may exceed the exact quotient, but only by the two    *)
+(* roundings (of `d as f64` and of the division): tc * share <= d * (1 + 2^-51).    *)
+(* ================================================================================ *)
+
+Lemma rnd_0 : rnd 0 = 0.
+Proof. apply round_0. auto with typeclass_instances. Qed.
+
+Lemma pow64_format : F64 (IZR (2 ^ 64)).
+Proof.
+  rewrite fexp64_FLT. apply generic_format_FLT. exists (Float radix2 1 64).
+  - unfold F2R. cbn [Fnum Fexp]. change (bpow radix2 64) with (IZR (2 ^ 64)). lra.
+  - cbn. lia.
+  - cbn. lia.
+Qed.
+
+Lemma pow64_lt_emax : IZR (2 ^ 64) < bpow radix2 emax.
+Proof. change (IZR (2 ^ 64)) with (bpow radix2 64). apply bpow_lt. lia. Qed.
+
+Lemma rnd_abs_le64 x : Rabs x <= IZR (2 ^ 64) -> Rabs (rnd x) <= IZR (2 ^ 64).
+Proof.
+  intros H. apply abs_round_le_generic; auto with typeclass_instances.
+  - apply valid64.
+  - apply pow64_format.
+Qed.
+
+(* `d as f64` for any |d| <= 2^64: the correctly rounded value, finite *)
+Lemma BofZ_round z : (Z.abs z <= 2 ^ 64)%Z -> B2R (BofZ z) = rnd (IZR z) /\ finB (BofZ z) = true.
+Proof.
+  intros Hz. pose proof (binary_normalize_correct prec emax Hprec Hmax mode_NE z 0 false) as H.
+  cbv zeta in H. fold (BofZ z) in H.
+  assert (E : F2R (Float radix2 z 0) = IZR z) by (unfold F2R; cbn; lra).
+  rewrite E in H. change (round_mode mode_NE) with ZnearestE in H.
+  rewrite Rlt_bool_true in H; [tauto|].
+  apply Rle_lt_trans with (IZR (2 ^ 64)); [|apply pow64_lt_emax].
+  apply rnd_abs_le64. rewrite <- abs_IZR. apply IZR_le. exact Hz.
+Qed.
+
+Definition u53 : R := / 2 * bpow radix2 (- prec + 1).
+
+Lemma u53_val : u53 = / IZR (2 ^ 53).
+Proof.
+  unfold u53. change (- prec + 1)%Z with (- (52))%Z. rewrite bpow_opp.
+  change (bpow radix2 52) with (IZR (2 ^ 52)). change (2 ^ 53)%Z with (2 * 2 ^ 52)%Z. rewrite mult_IZR.
+  field. apply not_0_IZR. lia.
+Qed.
+
+(* relative error of rounding a value that is 0 or at least 2^-1022 *)
+Lemma rnd_rel_up x : 0 <= x -> (x = 0 \/ bpow radix2 (-1022) <= x) -> 0 <= rnd x <= x * (1 + u53).
+Proof.
+  intros Hx [->|Hn].
+  - rewrite rnd_0. lra.
+  - split.
+    + rewrite <- rnd_0. apply rnd_mono. exact Hx.
+    + assert (Hnorm : bpow radix2 (-1074 + prec - 1) <= Rabs x) by (rewrite Rabs_pos_eq by lra; exact Hn).
+      pose proof (relative_error_N_FLT radix2 (-1074) prec eq_refl (fun n => negb (Z.even n)) x Hnorm) as Herr.
+      change (round radix2 (FLT_exp (-1074) prec) (Znearest (fun n => negb (Z.even n))) x) with (rnd x) in Herr.
+      rewrite (Rabs_pos_eq x) in Herr by lra. fold u53 in Herr.
+      apply Rabs_le_inv in Herr. lra.
+Qed.
+
+Theorem headroom_f64_bounds d tc h : (Z.abs d <= 2 ^ 64)%Z -> (1 <= Z.of_nat tc <= 2 ^ 53)%Z ->
+  headroom_f64 d tc = Some h ->
+  ((0 <= d)%Z -> (0 <= h)%Z /\ (Z.of_nat tc * h * 2 ^ 51 <= d * (2 ^ 51 + 1))%Z) /\
+  ((d <= 0)%Z -> (h <= 0)%Z).
+Proof.
+  intros Hd Htc. unfold headroom_f64.
+  destruct (BofZ_round d Hd) as [Rd Fd].
+  destruct (BofZ_correct (Z.of_nat tc)) as [Rt Ft]; [lia|].
+  rewrite (BofZ_link d), (BofZ_link (Z.of_nat tc)), div_link.
+  assert (Hne : B2R (BofZ (Z.of_nat tc)) <> 0) by (rewrite Rt; apply not_0_IZR; lia).
+  pose proof (Bdiv_correct prec emax Hprec Hmax mode_NE (BofZ d) (BofZ (Z.of_nat tc)) Hne) as H.
+  rewrite Rd, Rt in H. change (round_mode mode_NE) with ZnearestE in H.
+  set (x := rnd (IZR d)) in *. set (T := IZR (Z.of_nat tc)) in *.
+  assert (HT1 : 1 <= T) by (apply IZR_le; lia).
+  assert (HTi : 0 < / T <= 1).
+  { split; [apply Rinv_0_lt_compat; lra|]. rewrite <- Rinv_1. apply Rinv_le; lra. }
+  assert (Hx64 : Rabs x <= IZR (2 ^ 64)).
+  { apply rnd_abs_le64. rewrite <- abs_IZR. apply IZR_le. exact Hd. }
+  assert (Hq64 : Rabs (x / T) <= IZR (2 ^ 64)).
+  { unfold Rdiv. rewrite Rabs_mult, (Rabs_pos_eq (/ T)) by lra.
+    pose proof (Rabs_pos x). nra. }
+  rewrite Rlt_bool_true in H
+    by (apply Rle_lt_trans with (IZR (2 ^ 64)); [apply rnd_abs_le64; exact Hq64|apply pow64_lt_emax]).
+  destruct H as (HR & HF & _). rewrite Fd in HF.
+  rewrite (trunc_Z_B2SF _ HF), HR.
+  set (y := rnd (x / T)) in *.
+  destruct (in_i64 (Ztrunc y)); [|discriminate]. intros [= <-].
+  split.
+  - intros Hd0.
+    assert (Hd0R : 0 <= IZR d) by (apply IZR_le; exact Hd0).
+    (* first rounding *)
+    assert (Hx : 0 <= x <= IZR d * (1 + u53)).
+    { apply rnd_rel_up; [exact Hd0R|].
+      destruct (Z.eq_dec d 0) as [->|Nd]; [now left|right].
+      apply Rle_trans with 1; [|apply IZR_le; lia].
+      change 1 with (bpow radix2 0). apply bpow_le. lia. }
+    (* second rounding *)
+    assert (Hq0 : 0 <= x / T) by (unfold Rdiv; nra).
+    assert (Hy : 0 <= y <= x / T * (1 + u53)).
+    { apply rnd_rel_up; [exact Hq0|].
+      destruct (Req_dec x 0) as [E0|N0]; [left; rewrite E0; unfold Rdiv; lra|right].
+      (* x is a non-zero rounded non-negative integer: x >= 1 *)
+      assert (Hx1 : 1 <= x).
+      { assert (Hd1 : (1 <= d)%Z).
+        { destruct (Z.eq_dec d 0) as [->|]; [|lia]. exfalso. apply N0. unfold x. apply rnd_0. }
+        unfold x. rewrite <- (rnd_id 1) by (apply (int_format 1); cbn; lia).
+        apply rnd_mono. apply IZR_le. exact Hd1. }
+      apply Rle_trans with (/ IZR (2 ^ 53)).
+      - rewrite pow53, <- bpow_opp. apply bpow_le. lia.
+      - apply Rle_trans with (/ T).
+        + apply Rinv_le; [lra|]. unfold T. apply IZR_le. lia.
+        + unfold Rdiv. rewrite <- (Rmult_1_l (/ T)) at 1. apply Rmult_le_compat_r; lra. }
+    rewrite Ztrunc_floor by lra.
+    assert (Hfl : IZR (Zfloor y) <= y) by apply Zfloor_lb.
+    split.
+    + apply Zfloor_lub. lra.
+    + (* T * floor y <= T * y <= x (1+u) <= d (1+u)^2 <= d (1 + 2^-51) *)
+      apply le_IZR. rewrite !mult_IZR, plus_IZR. fold T.
+      assert (Hu : 0 < u53 /\ (1 + u53) * (1 + u53) <= 1 + / IZR (2 ^ 51)).
+      { rewrite u53_val. change (2 ^ 53)%Z with (4 * 2 ^ 51)%Z. rewrite mult_IZR.
+        assert (Hp : 1 <= IZR (2 ^ 51)) by (apply IZR_le; lia).
+        assert (Hi : 0 < / IZR (2 ^ 51) <= 1).
+        { split; [apply Rinv_0_lt_compat; lra|rewrite <- Rinv_1; apply Rinv_le; lra]. }
+        rewrite Rinv_mult. split; [lra|nra]. }
+      assert (Hp51 : 0 < IZR (2 ^ 51)) by (apply IZR_lt; lia).
+      assert (HTy : T * y <= x * (1 + u53)).
+      { destruct Hy as [_ Hy]. apply Rmult_le_compat_l with (r := T) in Hy; [|lra].
+        replace (T * (x / T * (1 + u53))) with (x * (1 + u53)) in Hy by (field; lra). exact Hy. }
+      assert (Hchain : T * IZR (Zfloor y) <= IZR d * (1 + / IZR (2 ^ 51))).
+      { apply Rle_trans with (T * y); [apply Rmult_le_compat_l; lra|].
+        apply Rle_trans with (x * (1 + u53)); [exact HTy|].
+        apply Rle_trans with (IZR d * (1 + u53) * (1 + u53)); [apply Rmult_le_compat_r; lra|].
+        rewrite Rmult_assoc. apply Rmult_le_compat_l; lra. }
+      apply Rmult_le_compat_r with (r := IZR (2 ^ 51)) in Hchain; [|lra].
+      replace (IZR d * (1 + / IZR (2 ^ 51)) * IZR (2 ^ 51)) with (IZR d * (IZR (2 ^ 51) + 1)) in Hchain by (field; lra).
+      exact Hchain.
+  - intros Hd0.
+    assert (Hx : x <= 0) by (unfold x; rewrite <- rnd_0; apply rnd_mono; apply IZR_le; exact Hd0).
+    assert (Hq0 : x / T <= 0) by (unfold Rdiv; nra).
+    assert (Hy : y <= 0) by (unfold y; rewrite <- rnd_0; apply rnd_mono; exact Hq0).
+    replace y with (- (- y)) by lra. rewrite Ztrunc_opp, Ztrunc_floor by lra.
+    assert (0 <= Zfloor (- y))%Z by (apply Zfloor_lub; lra). lia.
+Qed.
+
+(* the conversion back to i64 succeeds as long as |d| <= 2^63 - 1024 (the largest binary64 number
+   below 2^63): the share never panics on such operands *)
+Lemma big_format : F64 (IZR (2 ^ 63 - 1024)).
+Proof.
+  rewrite fexp64_FLT. apply generic_format_FLT. exists (Float radix2 (2 ^ 53 - 1) 10).
+  - unfold F2R. cbn [Fnum Fexp]. change (bpow radix2 10) with (IZR (2 ^ 10)).
+    rewrite <- mult_IZR. f_equal.
+  - cbn. lia.
+  - cbn. lia.
+Qed.
+
+Theorem headroom_f64_some d tc : (Z.abs d <= 2 ^ 63 - 1024)%Z -> (1 <= Z.of_nat tc <= 2 ^ 53)%Z ->
+  exists h, headroom_f64 d tc = Some h.
+Proof.
+  intros Hd Htc. unfold headroom_f64.
+  destruct (BofZ_round d ltac:(lia)) as [Rd Fd].
+  destruct (BofZ_correct (Z.of_nat tc)) as [Rt Ft]; [lia|].
+  rewrite (BofZ_link d), (BofZ_link (Z.of_nat tc)), div_link.
+  assert (Hne : B2R (BofZ (Z.of_nat tc)) <> 0) by (rewrite Rt; apply not_0_IZR; lia).
+  pose proof (Bdiv_correct prec emax Hprec Hmax mode_NE (BofZ d) (BofZ (Z.of_nat tc)) Hne) as H.
+  rewrite Rd, Rt in H. change (round_mode mode_NE) with ZnearestE in H.
+  set (x := rnd (IZR d)) in *. set (T := IZR (Z.of_nat tc)) in *.
+  assert (HT1 : 1 <= T) by (apply IZR_le; lia).
+  assert (HTi : 0 < / T <= 1).
+  { split; [apply Rinv_0_lt_compat; lra|]. rewrite <- Rinv_1. apply Rinv_le; lra. }
+  set (M := IZR (2 ^ 63 - 1024)).
+  assert (HM : 0 <= M) by (apply IZR_le; lia).
+  assert (Hx : Rabs x <= M).
+  { apply abs_round_le_generic; auto with typeclass_instances; [apply valid64|apply big_format|].
+    rewrite <- abs_IZR. apply IZR_le. exact Hd. }
+  assert (Hq : Rabs (x / T) <= M).
+  { unfold Rdiv. rewrite Rabs_mult, (Rabs_pos_eq (/ T)) by lra. pose proof (Rabs_pos x). nra. }
+  assert (Hy : Rabs (rnd (x / T)) <= M).
+  { apply abs_round_le_generic; auto with typeclass_instances; [apply valid64|apply big_format]. }
+  rewrite Rlt_bool_true in H.
+  2:{ apply Rle_lt_trans with M; [exact Hy|]. apply Rlt_trans with (IZR (2 ^ 64)); [apply IZR_lt; lia|apply pow64_lt_emax]. }
+  destruct H as (HR & HF & _). rewrite Fd in HF.
+  rewrite (trunc_Z_B2SF _ HF), HR.
+  set (y := rnd (x / T)) in *.
+  assert (Hz : (Z.abs (Ztrunc y) <= 2 ^ 63 - 1024)%Z).
+  { apply le_IZR. rewrite abs_IZR. fold M.
+    apply Rle_trans with (Rabs y); [|exact Hy].
+    destruct (Rle_or_lt 0 y) as [P|N].
+    - rewrite Ztrunc_floor by exact P. pose proof (Zfloor_lb y).
+      assert (0 <= IZR (Zfloor y)) by (apply IZR_le, Zfloor_lub; lra).
+      rewrite !Rabs_pos_eq by lra. lra.
+    - rewrite Ztrunc_ceil by lra. pose proof (Zceil_ub y).
+      assert (IZR (Zceil y) <= 0) by (apply IZR_le, Zceil_glb; lra).
+      rewrite !Rabs_left1 by lra. lra. }
+  unfold in_i64.
+  destruct (Z.leb_spec (- 2 ^ 63) (Ztrunc y)); destruct (Z.ltb_spec (Ztrunc y) (2 ^ 63)); cbn [andb]; eauto; lia.
+Qed.
+
+(* ================================================================================ *)
+(* W = f64: the per-thread budget `pw + (max - pw) / tc` on integer-valued weights.   *)
+(* Its integer part is pw + (max - pw) quot tc as long as tc * (pw + 3 d + 1) < 2^53; *)
+(* at magnitude 2^52 it is not (Proofs/ArcSwapF64.v: f64w_caps_refuted).              *)
+(* ================================================================================ *)
+
+Lemma add_link (x y : bf) : f64_add (B2SF x) (B2SF y) = B2SF (Bplus mode_NE x y).
+Proof.
+  destruct x as [sx|sx| |sx mx ex Bx], y as [sy|sy| |sy my ey By];
+    try reflexivity; try (cbn; destruct (Bool.eqb _ _); reflexivity).
+  cbn. apply binary_normalize_equiv.
+Qed.
+
+Theorem f64w_budget_exact x d tc :
+  (0 <= x)%Z -> (0 <= d)%Z -> (1 <= Z.of_nat tc)%Z -> (Z.of_nat tc * (x + 3 * d + 1) < 2 ^ 53)%Z ->
+  trunc_Z (f64_add (f64_of_Z x) (f64_div (f64_of_Z d) (f64_of_Z (Z.of_nat tc)))) = Some (x + d / Z.of_nat tc)%Z.
+Proof.
+  intros Hx Hd Htc Hsmall.
+  set (t := Z.of_nat tc) in *.
+  assert (Hxb : (Z.abs x <= 2 ^ 53)%Z) by nia.
+  assert (Hdb : (Z.abs d <= 2 ^ 53)%Z) by nia.
+  assert (Htb : (Z.abs t <= 2 ^ 53)%Z) by nia.
+  destruct (BofZ_correct x Hxb) as [Rx Fx].
+  destruct (BofZ_correct d Hdb) as [Rd Fd].
+  destruct (BofZ_correct t Htb) as [Rt Ft].
+  rewrite (BofZ_link x), (BofZ_link d), (BofZ_link t), div_link.
+  assert (Hne : B2R (BofZ t) <> 0) by (rewrite Rt; apply not_0_IZR; lia).
+  pose proof (Bdiv_correct prec emax Hprec Hmax mode_NE (BofZ d) (BofZ t) Hne) as H.
+  rewrite Rd, Rt in H. change (round_mode mode_NE) with ZnearestE in H.
+  set (T := IZR t) in *.
+  assert (HT1 : 1 <= T) by (apply IZR_le; lia).
+  assert (HTi : 0 < / T <= 1).
+  { split; [apply Rinv_0_lt_compat; lra|]. rewrite <- Rinv_1. apply Rinv_le; lra. }
+  assert (Hd0 : 0 <= IZR d) by (apply IZR_le; lia).
+  assert (Hx0 : 0 <= IZR x) by (apply IZR_le; lia).
+  assert (Hq0 : 0 <= IZR d / T) by (unfold Rdiv; nra).
+  assert (Hq64 : Rabs (IZR d / T) <= IZR (2 ^ 64)).
+  { rewrite Rabs_pos_eq by lra. apply Rle_trans with (IZR d); [unfold Rdiv; nra|]. apply IZR_le. lia. }
+  rewrite Rlt_bool_true in H
+    by (apply Rle_lt_trans with (IZR (2 ^ 64)); [apply rnd_abs_le64; exact Hq64|apply pow64_lt_emax]).
+  destruct H as (HRq & HFq & _). rewrite Fd in HFq.
+  set (Q := Bdiv mode_NE (BofZ d) (BofZ t)) in *.
+  set (y := rnd (IZR d / T)) in *.
+  (* the quotient: q <= y <= d/T (1+u) *)
+  set (q := (d / t)%Z). set (r := (d mod t)%Z).
+  assert (Hdiv : d = (t * q + r)%Z) by (unfold q, r; apply Z.div_mod; lia).
+  assert (Hr : (0 <= r < t)%Z) by (unfold r; apply Z.mod_pos_bound; lia).
+  assert (Hqn : (0 <= q)%Z) by (unfold q; apply Z.div_pos; lia).
+  assert (Hqd : (q <= d)%Z) by (unfold q; apply Z.div_le_upper_bound; nia).
+  assert (Hdq : IZR d / T = IZR q + IZR r / T).
+  { rewrite Hdiv, plus_IZR, mult_IZR. fold T. field. lra. }
+  assert (Hr0 : 0 <= IZR r <= T - 1) by (split; [apply IZR_le; lia|unfold T; rewrite <- minus_IZR; apply IZR_le; lia]).
+  assert (Hy : IZR q <= y <= IZR d / T * (1 + u53)).
+  { split.
+    - unfold y. rewrite <- (rnd_id (IZR q)) by (apply int_format; lia). apply rnd_mono.
+      rewrite Hdq. assert (0 <= IZR r / T) by (unfold Rdiv; nra). lra.
+    - apply rnd_rel_up; [exact Hq0|].
+      destruct (Z.eq_dec d 0) as [E0|N0]; [left; rewrite E0; unfold Rdiv; lra|right].
+      apply Rle_trans with (/ IZR (2 ^ 53)); [rewrite pow53, <- bpow_opp; apply bpow_le; lia|].
+      apply Rle_trans with (/ T); [apply Rinv_le; [lra|unfold T; apply IZR_le; lia]|].
+      unfold Rdiv. rewrite <- (Rmult_1_l (/ T)) at 1. apply Rmult_le_compat_r; [lra|apply IZR_le; lia]. }
+  (* the sum *)
+  rewrite add_link.
+  pose proof (Bplus_correct prec emax Hprec Hmax mode_NE (BofZ x) Q Fx HFq) as HS.
+  rewrite Rx, HRq in HS. change (round_mode mode_NE) with ZnearestE in HS. fold y in HS.
+  set (s := IZR x + y) in *.
+  assert (Hu : 0 < u53 <= 1) by (rewrite u53_val; split; [apply Rinv_0_lt_compat; apply IZR_lt; lia|
+                                   rewrite <- Rinv_1; apply Rinv_le; [lra|apply IZR_le; lia]]).
+  assert (Hs0 : 0 <= s) by (unfold s; assert (0 <= IZR q) by (apply IZR_le; lia); lra).
+  assert (Hdle : IZR d / T <= IZR d) by (unfold Rdiv; nra).
+  assert (Hs64 : Rabs s <= IZR (2 ^ 64)).
+  { rewrite Rabs_pos_eq by lra. unfold s.
+    assert (IZR x + 2 * IZR d <= IZR (2 ^ 53)).
+    { rewrite <- (mult_IZR 2), <- plus_IZR. apply IZR_le. nia. }
+    assert (IZR (2 ^ 53) <= IZR (2 ^ 64)) by (apply IZR_le; lia). nra. }
+  rewrite Rlt_bool_true in HS
+    by (apply Rle_lt_trans with (IZR (2 ^ 64)); [apply rnd_abs_le64; exact Hs64|apply pow64_lt_emax]).
+  destruct HS as (HRs & HFs & _).
+  rewrite (trunc_Z_B2SF _ HFs), HRs. f_equal.
+  (* floor (rnd s) = x + q *)
+  assert (Hlo : IZR (x + q) <= rnd s).
+  { rewrite <- (rnd_id (IZR (x + q))) by (apply int_format; nia). apply rnd_mono.
+    unfold s. rewrite plus_IZR. lra. }
+  assert (Hup : rnd s <= s * (1 + u53)).
+  { apply rnd_rel_up; [exact Hs0|].
+    destruct (Req_dec s 0) as [E0|N0]; [now left|right].
+    (* s is 0 or at least 2^-53 / t ... it is at least min(1, d/T) > 2^-1022 *)
+    destruct (Z.eq_dec x 0) as [Ex|Nx].
+    - (* s = y, a rounded value: itself in format and non-zero *)
+      assert (Es : s = y) by (unfold s; rewrite Ex; lra).
+      rewrite Es. destruct (Z.eq_dec d 0) as [Ed|Nd].
+      + exfalso. apply N0. rewrite Es. unfold y. rewrite Ed. unfold Rdiv. rewrite Rmult_0_l. apply rnd_0.
+      + apply Rle_trans with (rnd (/ IZR (2 ^ 53))).
+        * rewrite pow53, <- bpow_opp, rnd_id by (apply generic_format_bpow; cbn; lia). apply bpow_le. lia.
+        * apply rnd_mono. apply Rle_trans with (/ T); [apply Rinv_le; [lra|unfold T; apply IZR_le; lia]|].
+          unfold Rdiv. rewrite <- (Rmult_1_l (/ T)) at 1. apply Rmult_le_compat_r; [lra|apply IZR_le; lia].
+    - apply Rle_trans with 1; [change 1 with (bpow radix2 0); apply bpow_le; lia|].
+      unfold s. assert (1 <= IZR x) by (apply IZR_le; lia). assert (0 <= IZR q) by (apply IZR_le; lia). lra. }
+  assert (Hlt : rnd s < IZR (x + q + 1)).
+  { apply Rle_lt_trans with (s * (1 + u53)); [exact Hup|].
+    rewrite !plus_IZR.
+    (* s <= x + q + (T-1)/T + u d/T ; s (1+u) < x + q + 1  <=  u (d/T + s) < 1/T *)
+    assert (Hs_le : s <= IZR x + IZR q + (T - 1) / T + u53 * (IZR d / T)).
+    { unfold s. destruct Hy as [_ Hy]. rewrite Hdq in Hy at 1.
+      assert (IZR r / T <= (T - 1) / T) by (unfold Rdiv; apply Rmult_le_compat_r; lra). nra. }
+    assert (Hone : (T - 1) / T = 1 - / T) by (field; lra).
+    assert (Hs_le2 : s <= IZR x + 2 * IZR d + 1).
+    { assert (IZR q <= IZR d) by (apply IZR_le; lia).
+      assert (u53 * (IZR d / T) <= IZR d).
+      { apply Rle_trans with (1 * (IZR d / T)); [apply Rmult_le_compat_r; lra|lra]. }
+      assert ((T - 1) / T <= 1) by (rewrite Hone; lra).
+      lra. }
+    assert (Hkey : u53 * (IZR d + (IZR x + 2 * IZR d + 1)) < / T).
+    { rewrite u53_val.
+      replace (IZR d + (IZR x + 2 * IZR d + 1)) with (IZR (x + 3 * d + 1)) by (rewrite !plus_IZR, mult_IZR; lra).
+      set (Nn := IZR (x + 3 * d + 1)). set (P := IZR (2 ^ 53)).
+      assert (Hp : 0 < P) by (apply IZR_lt; lia).
+      assert (HTN : T * Nn < P) by (unfold T, Nn, P; rewrite <- mult_IZR; apply IZR_lt; exact Hsmall).
+      assert (HN0 : 0 <= Nn) by (apply IZR_le; lia).
+      apply Rmult_lt_reg_r with (T * P); [nra|].
+      replace (/ P * Nn * (T * P)) with (T * Nn) by (field; lra).
+      replace (/ T * (T * P)) with P by (field; lra). exact HTN. }
+    assert (u53 * (IZR d / T) <= u53 * IZR d) by nra.
+    nra. }
+  assert (Hnn : 0 <= rnd s) by (apply Rle_trans with (IZR (x + q)); [apply IZR_le; lia|exact Hlo]).
+  rewrite Ztrunc_floor by exact Hnn. apply Zfloor_imp. split; [exact Hlo|exact Hlt].
+Qed.
